@@ -4,7 +4,7 @@ set -e
 cd "$(dirname "$0")"
 export GOFLAGS=-mod=mod GOPROXY=off GOSUMDB=off GOTOOLCHAIN=local
 mkdir -p .build/bin
-python3 -c "import importlib.machinery,importlib.util,sys; l=importlib.machinery.SourceFileLoader('chk','check'); m=importlib.util.module_from_spec(importlib.util.spec_from_loader('chk',l)); l.exec_module(m); m.coq_makefile()"
+python3 -c "import importlib.machinery,importlib.util,sys; l=importlib.machinery.SourceFileLoader('chk','check'); m=importlib.util.module_from_spec(importlib.util.spec_from_loader('chk',l)); l.exec_module(m); print(m.gen_consts()); m.coq_makefile()"
 ( cd coq && timeout 3000 make -j16 >/dev/null )
 python3 - <<'PY'
 import subprocess, sys, os, shutil
@@ -23,5 +23,4 @@ for pid, c in PROPS.items():
         if r.returncode != 0:
             sys.exit(1)
 PY
-if [ -d tools/genconsts ]; then ( cd tools/genconsts && go1.26 build -o ../../.build/bin/genconsts . ); fi
 echo setup ok
